@@ -449,3 +449,26 @@ pub fn quartile(body: &[u8], i: usize) -> u8 {
 }
 
 pub mod selftest;
+
+/// Bucket aggregation: the per-bucket `k > q3 / q2 / q1` cascade of `final()`,
+/// body in output order (first bucket in the low bits of the last byte).
+pub fn aggregate(buckets: &[u32], n: usize, q1: u32, q2: u32, q3: u32) -> Vec<u8> {
+    let code_size = n / 4;
+    let mut tmp = vec![0u8; code_size];
+    for i in 0..code_size {
+        let mut h = 0u8;
+        for j in 0..4 {
+            let k = buckets[4 * i + j];
+            if q3 < k {
+                h += 3 << (j * 2);
+            } else if q2 < k {
+                h += 2 << (j * 2);
+            } else if q1 < k {
+                h += 1 << (j * 2);
+            }
+        }
+        tmp[i] = h;
+    }
+    tmp.reverse();
+    tmp
+}
